@@ -238,16 +238,25 @@ class AcAbilityDecoder(
                 min_set_point,
                 max_set_point,
             ) = _STRUCT.unpack_from(buffer, offset=offset)
-            offset += _STRUCT.size
+            # The record ends after the following length; skip any unknown extra bytes.
+            record_end = offset + 2 + following_length
+            if (
+                following_length < _FOLLOWING_LENGTH_BASE
+                or record_end > header.message_length
+            ):
+                raise comms.DecodeError(
+                    f"Invalid AC Ability following length: {following_length}"
+                )
 
             groups: Optional[set[int]] = None
-            if following_length == (
+            if following_length >= (
                 _FOLLOWING_LENGTH_BASE + _GROUP_DISPLAY_STRUCT.size
             ):
-                (encoded_groups,) = _GROUP_DISPLAY_STRUCT.unpack_from(buffer, offset)
-                offset += _GROUP_DISPLAY_STRUCT.size
-
+                (encoded_groups,) = _GROUP_DISPLAY_STRUCT.unpack_from(
+                    buffer, offset + _STRUCT.size
+                )
                 groups = self._decode_group_display(encoded_groups)
+            offset = record_end
 
             ac_abilities.append(
                 AcAbility(
